@@ -501,6 +501,15 @@ func c05Program(p *prog, steps int) {
 					k = r.Range(2, n-1) // remove a large part at once
 				}
 				idxs := append([]int{}, perm[:k]...)
+				if r.Chance(1, 4) {
+					// one of the (distinct) indices lies outside 0..n-1; also the case "as many indices as elements"
+					if r.Bool() && n <= 6 {
+						idxs = append([]int{}, perm...)
+					}
+					idxs[r.Intn(len(idxs))] = []int{n, n + 4, -1, -n - 1}[r.Intn(4)]
+					c05DeleteInvalid(p, l, idxs)
+					break
+				}
 				p.step("Delete", fmt.Sprintf("%s.Delete(%v) [n=%d]", l.Name(), idxs, n), false, func() {
 					del := map[int]bool{}
 					for _, x := range idxs {
@@ -614,6 +623,73 @@ func c05Program(p *prog, steps int) {
 			break
 		}
 	}
+}
+
+// c05DeleteInvalid: a multi-index Delete with an index outside the domain must panic. How much was deleted before the
+// panic is not specified, so the model adopts what the list shows afterwards — provided it is the old content minus
+// some of the requested valid positions (nothing else may be gone, reordered or changed).
+func c05DeleteInvalid(p *prog, l *model.Node, idxs []int) {
+	n := len(l.E)
+	p.op = "Delete"
+	p.trace = append(p.trace, fmt.Sprintf("%s.Delete(%v) [n=%d, one index outside the domain]", l.Name(), idxs, n))
+	p.c.SetAdd("ops", "Delete-invalid-multi")
+	p.c.Count("steps")
+	pan, _ := drive.Protect(func() { l.List().Delete(append([]int{}, idxs...)...) })
+	if !pan {
+		p.fail("missing-panic:Delete", "panic (an index outside 0..n-1)", "returned normally; the list is now "+spec.Trunc(l.List().String(), 300))
+		return
+	}
+	p.c.Count("predicted_panics")
+	requested := map[int]bool{}
+	for _, x := range idxs {
+		if x >= 0 && x < n {
+			requested[x] = true
+		}
+	}
+	var now []any
+	if pan, msg := drive.Protect(func() { now = l.List().Slice() }); pan {
+		p.fail("model-mismatch-after:Delete", "a consistent list after the panic", "panic: "+msg)
+		return
+	}
+	// is the observed list the old one minus some subset of the requested valid positions? (dynamic programme over
+	// old position i / observed position j; duplicates make a greedy match ambiguous)
+	m := len(now)
+	if m > n {
+		p.fail("model-mismatch-after:Delete", "no extra elements after a panicking Delete", spec.Trunc(l.List().String(), 300))
+		return
+	}
+	ok := make([][]bool, n+2)
+	for i := range ok {
+		ok[i] = make([]bool, m+2)
+	}
+	ok[n][m] = true
+	for i := n - 1; i >= 0; i-- {
+		for j := m; j >= 0; j-- {
+			if requested[i] && ok[i+1][j] {
+				ok[i][j] = true
+				continue
+			}
+			if j < m && ok[i+1][j+1] && p.h.MatchVal(now[j], l.E[i]) == "" {
+				ok[i][j] = true
+			}
+		}
+	}
+	if !ok[0][0] {
+		p.fail("model-mismatch-after:Delete", "after a panicking multi-index Delete only requested positions may be missing", fmt.Sprintf("model %s, list is now %s", l.Show(), spec.Trunc(l.List().String(), 300)))
+		return
+	}
+	var kept []model.Val
+	i, j := 0, 0
+	for i < n {
+		if j < m && ok[i+1][j+1] && p.h.MatchVal(now[j], l.E[i]) == "" {
+			kept = append(kept, l.E[i])
+			i, j = i+1, j+1
+		} else {
+			i++
+		}
+	}
+	l.E = kept
+	p.checkHeap()
 }
 
 func c05NewList(p *prog) {
